@@ -233,3 +233,9 @@ impl Builder {
 pub fn prettify_meta(prg: &str, meta: crate::token::MetaInfo) -> String {
     crate::prettify_meta(prg, meta)
 }
+
+/// `compile::extend_to_bits` (crate-private): widens the wire vector `v` (most significant
+/// wire first) to `bits` wires, by sign extension when `signed`, else by zero extension.
+pub fn extend_to_bits(v: &mut Vec<GateIndex>, signed: bool, bits: usize) {
+    crate::compile::extend_to_bits_for_hooks(v, signed, bits)
+}
